@@ -76,6 +76,14 @@ def shapes(rng, per=1):
     out.append(("main:\n    jal foo\n    li a7, 10\n    ecall\nfoo:\n    li a0, 1\n    uret\n", "ok"))
     out.append(("main:\n    la t0, h\n    csrw utvec, t0\n    jal foo\n    li a7, 10\n    ecall\nfoo:\n    li a0, 1\n    uret\n"
                 "h:\n    addi s1, zero, 1\n    ret\n", "ok"))
+    # every documented environment call inside a called function, before its return (the two exit
+    # services excepted: a function that can only exit is the recorded class F-18a)
+    import spec_ecalls
+    for num, (args, rets) in sorted(spec_ecalls.RARS.items()):
+        if num in (10, 93):
+            continue
+        setup = "".join(f"    li a{a - 10}, 1\n" for a in args if 10 <= a <= 16)
+        out.append((f"main:\n    jal svc\n    li a7, 10\n    ecall\nsvc:\n{setup}    li a7, {num}\n    ecall\n    mv a0, a0\n    ret\n", "ok"))
     for t in oks:
         out.append((t, "ok"))
     rng.shuffle(out)
